@@ -63,7 +63,8 @@ class C17(Machine):
                    "model_III_swap_found", "model_II_swap_found",
                    "model_I_swap_found", "cross_links_rewired",
                    "cross_links_set", "unsorted_group", "singleton_group",
-                   "custom_distance_matrix", "generator_exact_count")
+                   "custom_distance_matrix", "generator_exact_count",
+                   "long_lived_object_reused")
     real_vs_stub = {"real": ["Network generators (ErdosRenyi, BarabasiAlbert, "
                              "BarabasiAlbert_igraph, Configuration, "
                              "WattsStrogatz, Model wrappers), "
@@ -185,6 +186,7 @@ class C17(Machine):
         grid = plain_grid({"n": n, "s": cfg["grid_s"]})
         ggrid = _geo_grid({"n": n, "s": cfg["grid_s"]})
         sig = [cfg["personality"]]
+        self._live = None
         with RNG.installed(sr):
             for step, op in enumerate(run["ops"]):
                 R.steps += 1
@@ -344,8 +346,7 @@ class C17(Machine):
         if k in ("geo1", "geo2", "geo3"):
             if A.sum() < 4:
                 return None
-            net = SpatialNetwork(grid=grid, adjacency=A.copy(),
-                                 silence_level=3)
+            net = self._live_spatial(A, grid, SpatialNetwork)
             if op["D"]["kind"] == "grid":
                 D = np.asarray(grid.distance(), dtype=float)
             else:
@@ -360,18 +361,22 @@ class C17(Machine):
                 return None
             M = self._simple(net.adjacency, step, n)
             if M is None:
+                self._live = None
                 return None
             self._degrees(M, A, step)
             self._geo(k, A, M, D, op, step)
+            self._consistent(net, M, step)
             return M
         if k == "by_distance":
-            net = SpatialNetwork(grid=grid, adjacency=A.copy(),
-                                 silence_level=3)
+            net = self._live_spatial(A, grid, SpatialNetwork)
             out = C.call(net.set_random_links_by_distance, op["a"], op["b"])
             if isinstance(out, C.Raised):
                 self._bad("raises", f"step {step}: {out!r}")
                 return None
-            return self._simple(net.adjacency, step, n)
+            M = self._simple(net.adjacency, step, n)
+            if M is not None:
+                self._consistent(net, M, step)
+            return M
         # ---------------- cross links between two groups
         g1, g2 = op["g1"], op["g2"]
         if g1 != sorted(g1) or g2 != sorted(g2):
@@ -406,6 +411,11 @@ class C17(Machine):
         M = self._simple(out.adjacency, step, n)
         if M is None:
             return None
+        if not np.array_equal(np.asarray(net.adjacency), A) or not \
+                np.array_equal(np.asarray(net.sp_A.todense()), A):
+            self._bad("input-network-modified",
+                      f"step {step}: the network passed to the model was "
+                      f"changed by the call")
         # everything outside the cross block is untouched
         mask = np.zeros((n, n), dtype=bool)
         mask[np.ix_(g1, g2)] = True
@@ -434,6 +444,30 @@ class C17(Machine):
                           f"step {step}: requested {want} cross links, got "
                           f"{cross1.sum()}")
         return M
+
+    def _live_spatial(self, A, grid, SpatialNetwork):
+        """The in-place randomisations act on one long-lived object as long
+        as the chain stays within them (its adjacency is the chain's)."""
+        live = getattr(self, "_live", None)
+        if live is not None and np.array_equal(
+                np.asarray(live.adjacency), A):
+            self._R.probe("long_lived_object_reused")
+            return live
+        self._live = SpatialNetwork(grid=grid, adjacency=A.copy(),
+                                    silence_level=3)
+        return self._live
+
+    def _consistent(self, net, M, step):
+        """After an in-place randomisation the object's representations
+        must agree with its adjacency matrix."""
+        links = int(M.sum()) // 2
+        got = sorted(tuple(sorted(e)) for e in net.graph.get_edgelist())
+        want = sorted((int(i), int(j)) for i, j in np.argwhere(np.triu(M)))
+        if net.n_links != links or got != want:
+            self._bad("object-inconsistent",
+                      f"step {step}: after the call the object reports "
+                      f"{net.n_links} links, its embedded graph has "
+                      f"{len(got)}, its adjacency matrix {links}")
 
     def _degrees(self, M, A, step):
         if not np.array_equal(M.sum(axis=0), A.sum(axis=0)):
